@@ -865,3 +865,23 @@ Proof.
   intros R R'. apply last_use_all_perm; [|intro k; reflexivity].
   intros p i l. rewrite (R p i l), (R' p i l). reflexivity.
 Qed.
+
+(* ====================================================================== Part I: the orders the
+   correspondence check dictates are iteration orders in the sense of the theorems *)
+
+Lemma rot_perm {A} k (l : list A) : Permutation (rot k l) l.
+Proof.
+  unfold rot. destruct l as [|a l]; [reflexivity|].
+  set (r := k mod List.length (a :: l)).
+  rewrite Permutation_app_comm, firstn_skipn. reflexivity.
+Qed.
+
+Theorem policy_reorders rev k : reorders (fun _ sid s => policy rev k sid s).
+Proof.
+  intros p i l. unfold policy. rewrite rot_perm.
+  destruct rev; [rewrite <- Permutation_rev|]; apply ssort_perm.
+Qed.
+
+Example policy_example :
+  policy false 1 "s" ["c"; "a"; "b"] = ["c"; "a"; "b"] /\ policy true 0 "s" ["c"; "a"; "b"] = ["b"; "a"; "c"].
+Proof. split; reflexivity. Qed.
